@@ -362,6 +362,7 @@ func spec_sent(i int) Token { panic("spec") }
 // iteration consumes input or hands an error token to the parser - so the parser, which stops at the first error token,
 // is never left waiting (generation ends; the lexer goroutine then blocks on its next send)
 //@ loop 1: end_of_body l.end > at_head(l.end) || sent > at_head(sent)
+//@ loop 1: terminates_assumed NOT terminating by itself at end of input: it is productive (proved: every iteration consumes input or hands an error token to the parser), the parser stops reading at the first error token, generation ends and the lexer goroutine stays blocked on its send
 
 //@ func ActionQuoteState
 //@ props C13
